@@ -6,6 +6,11 @@ _pos = 0
 trace = []
 
 
+class NS:                 # target of the attribute / augmented assignment forms of a simple statement
+    acc = []
+    x = None
+
+
 class E(Exception):
     pass
 
